@@ -3,7 +3,7 @@ from pyvc import components, runner
 from harness import components as hc, models
 
 MW = 'PEPit/wrappers/mosek_wrapper.py::MosekWrapper.'
-FUNCS = [MW + n for n in ('set_main_variables', 'send_constraint_to_solver', 'generate_problem', 'prepare_heuristic', '_get_Gram_from_mosek')] + [
+FUNCS = [MW + n for n in ('set_main_variables', 'send_constraint_to_solver', 'send_lmi_constraint_to_solver', 'generate_problem', 'prepare_heuristic', '_get_Gram_from_mosek')] + [
     'PEPit/tools/expressions_to_matrices.py::expression_to_sparse_matrices']
 
 
@@ -17,6 +17,7 @@ def tasks(run):
         out.append(('backends', (name, seed, None, True)))
         if i % 11 == 5:
             out.append(('backends', (name, seed, 'logdet2', False)))
+    out += [('backends', ('T_user_lmi', v, None, False)) for v in range(8)]       # every declaration order of LMIs and scalar constraints (row index != running count)
     out += [('mosek_many_rows', (11,)), ('mosek_no_value', (run.seed,)), ('mosek_no_value', (run.seed + 1,))]
     return out
 
@@ -34,7 +35,7 @@ def run(run):
                'putvarbound, putclist, putobjsense) is modelled by assumed contracts over ghost task state written from the documented meaning of each call '
                '(contracts/mosek.py): lower-triangular triplets without duplicates, appended variables fixed at zero, appended rows free and empty',
                'numpy broadcasting `int + zeros(shape, dtype=int)` is an integer array of the same length (python ints: no overflow); the pre-fix np.int8 is outside the subset',
-               'not under contract for MOSEK: send_lmi_constraint_to_solver, _recover_dual_values, solve, heuristic (bounded stand-in only)')
+               'not under contract for MOSEK: _recover_dual_values, solve, heuristic (bounded stand-in only)')
     hc.solve_scenarios(run, 'C11', tasks(run), 'rt-solve-backends',
                        'seeded DSL programs from 11 templates solved through the cvxpy back-end and through the real MosekWrapper running on a '
                        'recording / translating STAND-IN of the MOSEK Optimizer API (standins/mosek, not MOSEK): same value, valid certificate and '
